@@ -256,24 +256,34 @@ func GetOnlyExplainErr(errMsg string) string {
 	zhLen := len(ExplainZh)
 	enLen := len(ExplainEn)
 	endLen := len(ErrEndFlag)
-	splitLen := zhLen
 	nullLen := 1 // err msg [说明: xxx] 里包含一个空需要处理
+	wrote := false
 	for {
-		s := strings.Index(errMsg, ExplainZh)
 		e := strings.Index(errMsg, ErrEndFlag) // 未发现的话, 为最后一句错误
-		if s == -1 || (e != -1 && s > e) {     // 说明为英文
-			s = strings.Index(errMsg, ExplainEn)
+		clause := errMsg                       // 逐句处理, 说明标记只在本句内查找
+		if e != -1 {
+			clause = errMsg[:e]
+		}
+		splitLen := zhLen
+		s := strings.Index(clause, ExplainZh)
+		if s == -1 { // 说明为英文
+			s = strings.Index(clause, ExplainEn)
 			splitLen = enLen
 		}
-		if s == -1 { // 异常
-			break
+		if s != -1 { // 没有说明的句子(如: 规则不存在)跳过
+			start := s + splitLen + nullLen
+			if start > len(clause) {
+				start = len(clause)
+			}
+			if wrote {
+				buf.WriteString(ErrEndFlag)
+			}
+			buf.WriteString(clause[start:])
+			wrote = true
 		}
 		if e == -1 {
-			buf.WriteString(errMsg[s+splitLen+nullLen:])
 			break
 		}
-		buf.WriteString(errMsg[s+splitLen+nullLen : e])
-		buf.WriteString(ErrEndFlag)
 		errMsg = errMsg[e+endLen:]
 	}
 	return buf.String()
